@@ -73,7 +73,7 @@ impl Await {
                     // NOTE: We need to get the object before resuming, since it could clear the stack.
                     let async_generator = r#gen.async_generator_object()?;
 
-                    r#gen.resume(
+                    let result = r#gen.resume(
                         Some(args.get_or_undefined(0).clone()),
                         GeneratorResumeKind::Normal,
                         context,
@@ -84,6 +84,12 @@ impl Await {
                             .downcast_mut::<AsyncGenerator>()
                             .js_expect("must be async generator")?
                             .context = Some(r#gen);
+                    }
+
+                    // NOTE: The function body handles every catchable error by itself, so only engine
+                    // errors (e.g. an exceeded runtime limit) arrive here; report them to the host.
+                    if let CompletionRecord::Throw(err) = result {
+                        return Err(err);
                     }
 
                     // e. Assert: When we reach this step, asyncContext has already been removed from the execution context stack and prevContext is the currently running execution context.
@@ -114,7 +120,7 @@ impl Await {
                     // NOTE: We need to get the object before resuming, since it could clear the stack.
                     let async_generator = r#gen.async_generator_object()?;
 
-                    r#gen.resume(
+                    let result = r#gen.resume(
                         Some(args.get_or_undefined(0).clone()),
                         GeneratorResumeKind::Throw,
                         context,
@@ -125,6 +131,12 @@ impl Await {
                             .downcast_mut::<AsyncGenerator>()
                             .js_expect("must be async generator")?
                             .context = Some(r#gen);
+                    }
+
+                    // NOTE: The function body handles every catchable error by itself, so only engine
+                    // errors (e.g. an exceeded runtime limit) arrive here; report them to the host.
+                    if let CompletionRecord::Throw(err) = result {
+                        return Err(err);
                     }
 
                     Ok(JsValue::undefined())
